@@ -63,14 +63,21 @@ def covering_handlers(prog, f, pm, node):
     # try: its handlers cover every site of the function
     w = prog.wrapper_of(f)
     if w is not None:
-        wnode, pname = w
+        wnode, pname = w[0], w[1]
         for t in ast.walk(wnode):
             if isinstance(t, ast.Try) and any(
                     isinstance(c, ast.Call) and isinstance(c.func, ast.Name)
                     and c.func.id == pname
                     for b in t.body for c in ast.walk(b)):
                 for h in t.handlers:
-                    out.append((h, handler_names(prog, f.module, h, None)))
+                    h2 = h
+                    if len(w) > 2 and isinstance(h.type, ast.Name) and \
+                            h.type.id in w[2]:
+                        # the factory's parameter as written at the site
+                        import copy
+                        h2 = copy.copy(h)
+                        h2.type = w[2][h.type.id]
+                    out.append((h, handler_names(prog, f.module, h2, None)))
     return out
 
 
